@@ -4,6 +4,7 @@ import (
 	"encoding/binary"
 	"fmt"
 	"github.com/jackc/pgx/v5/pgtype"
+	"math/big"
 	"sort"
 	"strings"
 
@@ -26,7 +27,7 @@ func init() {
 		assumptions: append([]string{"header flags and extension length are zero (standard header); a field longer than the message limit L is not generated"}, commonAssumptions...)}})
 }
 
-var c14types = []uint32{pg.OIDBool, pg.OIDInt2, pg.OIDInt4, pg.OIDInt8, pg.OIDFloat4, pg.OIDFloat8, pg.OIDText, pg.OIDVarchar, pg.OIDBytea, pg.OIDUUID, pg.OIDOid, pg.OIDDate, pg.OIDTimestamp, pg.OIDTimestamptz, pg.OIDInt4Array, pg.OIDTextArray, pg.OIDBit, pg.OIDVarbit}
+var c14types = []uint32{pg.OIDBool, pg.OIDInt2, pg.OIDInt4, pg.OIDInt8, pg.OIDFloat4, pg.OIDFloat8, pg.OIDText, pg.OIDVarchar, pg.OIDBytea, pg.OIDUUID, pg.OIDOid, pg.OIDDate, pg.OIDTimestamp, pg.OIDTimestamptz, pg.OIDInt4Array, pg.OIDTextArray, pg.OIDBit, pg.OIDVarbit, pg.OIDNumeric}
 
 type c14table struct {
 	OIDs     []uint32
@@ -316,6 +317,16 @@ func c14rowEq(oids []uint32, got, want []any) string {
 				d[k] = '0' + b.Bytes[k/8]>>(7-k%8)&1
 			}
 			got[i] = pg.BitString(d)
+		}
+		if n, ok := got[i].(pgtype.Numeric); ok && n.Valid {
+			digits, neg := "", false
+			if n.Int != nil {
+				digits, neg = new(big.Int).Abs(n.Int).String(), n.Int.Sign() < 0
+			}
+			if g, w := pg.NumericCanon(n.NaN, int(n.InfinityModifier), neg, digits, int(n.Exp)), pg.Canon(oids[i], want[i]); g != w {
+				return fmt.Sprintf("field %d (numeric): got %s want %s", i, trim(g, 80), trim(w, 80))
+			}
+			continue
 		}
 		if g, w := pg.Canon(oids[i], got[i]), pg.Canon(oids[i], want[i]); g != w {
 			return fmt.Sprintf("field %d (oid %d): got %s want %s", i, oids[i], trim(g, 80), trim(w, 80))
